@@ -397,6 +397,9 @@ def tasks(tier, seed):
 
 def replay(o):
     w = o["witness"]
+    if w.get("kind") == "c10.length":
+        rs = [x for x in task_length() if "id" in x and x["status"] == FAILED]
+        return bool(rs), "the length of the polyline (sum of its segment lengths)", rs[0]["detail"] if rs else "all polyline lengths correct"
     if w.get("kind") == "c10.integ-order":
         r = [x for x in task_integrate_orders() if "id" in x and x["id"].endswith("[nnodes=%d]" % w["n"])][0]
         return r["status"] == FAILED, "same result whatever rule was used before", r["detail"]
